@@ -226,7 +226,7 @@ def generate(seed, tier, prop):
             "passive_const": passive,
             "const": const, "profiles": profiles, "n_steps": T, "run": run, "faults": faults,
             "permute": rng.random() < 0.5, "perm_seed": rng.randrange(1 << 30),
-            "restart": (rng.choice(["json_str", "json_enc", "json_file"]) if (prop == "C15" or rng.random() < 0.15) and kind in ("control", "control2") else None),
+            "restart": (rng.choice(["json_str", "json_enc", "json_file", "pickle_fobj"]) if (prop == "C15" or rng.random() < 0.15) and kind in ("control", "control2") else None),
             "knobs": {"fault_free": fault_free, "bad_steps": bad}, "ops": []}
 
 
@@ -548,6 +548,12 @@ def _restart_multinet(res, mn, nets, path):
     try:
         if path == "json_enc":
             loaded = pp.from_json_string(pp.to_json(mn, encryption_key=e1.KEY), encryption_key=e1.KEY)
+        elif path == "pickle_fobj":
+            import io
+            buf = io.BytesIO()
+            pp.to_pickle(mn, buf)
+            buf.seek(0)
+            loaded = pp.from_pickle(buf)
         elif path == "json_file":
             # through the simulated disk and the convert=True default of from_json
             fs = seams.SimFS()
@@ -564,7 +570,7 @@ def _restart_multinet(res, mn, nets, path):
         return None, None
     res.count("restart:multinet-%s" % path)
     if type(loaded).__name__ != "MultiNet" or sorted(loaded["nets"]) != sorted(mn["nets"]):
-        res.violate("C15", "C15/lost:multinet-structure@json", "%s %s" % (type(loaded).__name__, sorted(getattr(loaded, "nets", {}))))
+        res.violate("C15", "C15/lost:multinet-structure@%s" % path.split("_")[0], "%s %s" % (type(loaded).__name__, sorted(getattr(loaded, "nets", {}))))
         return None, None
     for nn in sorted(mn["nets"]):
         a, b = mn["nets"][nn], loaded["nets"][nn]
@@ -592,7 +598,7 @@ def _restart_multinet(res, mn, nets, path):
                 res.violate("C15", "C15/lost:multinet.controller.object:type@json", "%s -> %s" % (type(x).__name__, type(y).__name__))
                 continue
             dx, dy = vars(x), vars(y)
-            bad = sorted(k for k in set(dx) | set(dy) if k not in ("fluid",) and snap_canon(dx.get(k, "<absent>")) != snap_canon(dy.get(k, "<absent>")))
+            bad = sorted(k for k in set(dx) | set(dy) if snap_canon(dx.get(k, "<absent>")) != snap_canon(dy.get(k, "<absent>")))
             if bad:
                 res.violate("C15", "C15/lost:multinet.controller.object.%s@json" % bad[0], "%s: %r -> %r" % (type(x).__name__, dx.get(bad[0]), dy.get(bad[0])))
     res.oracle_checks += 1
